@@ -91,6 +91,11 @@ def violated(line, checked, release):
                     ok = ok and a1 == 0   # the wrap-around at q-1
                 if not ok:
                     return "%s build: %s(%d) = (a0=%d, a1=%d) violates the decomposition contract" % (prof, fn, args[0], a0, a1)
+            if fn == "rounding::%s::use_hint" % lv and 0 <= args[0] < Q and args[1] in (0, 1):
+                from .. import pyspec as S
+                want = S.use_hint(g, args[1], args[0])
+                if r is None or r[0] != want:
+                    return "%s build: %s(%d, %d) = %s, FIPS 204 Alg. 40 UseHint gives %d" % (prof, fn, args[0], args[1], r, want)
             if fn == "rounding::%s::hint_roundtrip" % lv and 0 <= args[1] < m and abs(args[0]) < 2 * g:
                 if r is None or r[0] != args[1]:
                     return "%s build: %s: use_hint((w1*2g+a0) mod q, make_hint(a0,w1)) = %s but w1 = %d (a0 = %d)" % (prof, lv, r, args[1], args[0])
